@@ -45,7 +45,7 @@ PROPS = {
              ["browser behaviour is modelled by WHATWG URL pre-processing (strip C0/space at the ends, drop TAB/LF/CR) + ASCII-case-insensitive scheme"], extra_modules=('GenC17', ('LinksDoc', r'doc_urls_safe|doc_href|doc_link_render|parseDoc_every_kind|parseBlocks_refs_good|reference_step|tokenize_refs'), ('Inline', r'pipeline|fromPipeline'), 'HtmlDecode')),
     'C05': P('C05', [('inlineops', 10000, 80000), ('block', 6000, 48000), ('inline', 5000, 40000), ('pipeline', 1500, 12000), ('pipetabs', 1500, 12000)], ('C05', 30000, 240000),
              "oracle: RangesOk on every parsed tree (root covers input, boundaries, nesting, sibling order, text/markup fidelity) for all generators x configurations with the paragraph rule; non-trivial = tree with more than 3 nodes",
-             ["whole-tree induction is _partial (Layer 3); covered by the oracle"], extra_modules=('C05Rest', 'C05Inline', 'C05Doc', ('Inline', r'ordered|translate'),)),
+             ["whole-tree induction is _partial (Layer 3); covered by the oracle"], extra_modules=('C05Tabs', 'C05Rest', 'C05Inline', 'C05Doc', ('Inline', r'ordered|translate'),)),
     'C06': P('C06', [('block', 6000, 48000), ('lines', 900, 7200)], ('C06', 15000, 120000),
              "oracle: both metamorphic relations on all tab-free spec inputs (with and without html) and generated/mutated tab-free documents; tree equality modulo the computed shift for the quote relation",
              ["list relation: every line (blank ones included) indented by the marker width, D contains a non-blank line"], extra_modules=('C06List', ('Block', r'bqScan|tableOk|tokenize_spec'),)),
